@@ -4,6 +4,9 @@ Run one scenario on a fresh SimLoop and collect everything the oracles need.
 
 import asyncio
 import contextlib
+import os
+import signal
+import threading
 import warnings
 import random
 
@@ -35,6 +38,22 @@ class Run:
                  'drain_idle', 'loop_stats', 'choices', 'seq_returned',
                  'seq_shutdown', 'seq_drained', 'harness_error', 'events',
                  'polls', 'instants', 'post2', 'seq_rerun')
+
+
+def _hung(_signum, _frame):
+    # a callback of the loop that never returns (a spin that never yields)
+    # is out of reach of the loop's iteration caps: no verdict, no exit 0
+    os.write(2, b"HARNESS: one simulated run did not return within 60 s of "
+                b"wall time (a callback that never yields to the loop?); "
+                b"aborting without a verdict\n")
+    os._exit(3)
+
+
+def _watchdog(seconds):
+    if threading.current_thread() is threading.main_thread():
+        if seconds:
+            signal.signal(signal.SIGALRM, _hung)
+        signal.alarm(seconds)
 
 
 @contextlib.contextmanager
@@ -86,6 +105,7 @@ def run_spec(spec, knobs, choices=None, poll=True, drain_virtual=40.0,
     """
     run = Run()
     run.spec, run.knobs = spec, knobs
+    _watchdog(60)
     run.harness_error = None
     if choices is None:
         chooser = Chooser(rng=random.Random(knobs["sched_seed"]))
@@ -305,6 +325,7 @@ def run_spec(spec, knobs, choices=None, poll=True, drain_virtual=40.0,
                         coro.close()
                     except Exception:                   # pylint: disable=W0703
                         pass
+        _watchdog(0)
         clock.deactivate()
         asyncio.set_event_loop(None)
         run.loop_stats = {
